@@ -31,14 +31,21 @@ def run(ctx):
             accept = [blk for blk in accept if bb in b.reach((0,)) and blk in b.reach((bb,))]
             ctx.ob("kind|accepting-exit", len(accept) >= 1, f"{len(accept)} accepting exit(s) after the kind match", b.loc())
             base_bb = bb
+            arm_region = {v: b.reach((s_,), blocked_blocks=[bb]) for v, s_ in ed.items()}
 
             def same_kind(body):
                 edges, blocks = [], []
                 for gb, ged, gow, gsi in body.enum_guards(TK):
-                    if gb == base_bb:
+                    if gb == base_bb or gsi.get("via_matches") == base_bb:
                         continue
-                    edges += [(gb, t) for t in ged.values()]
-                    blocks.append(gb)
+                    # a destructuring test counts only as `same kind`: the tested variant must be the base variant of the (single) arm it sits in
+                    owners = {v for v, reg in arm_region.items() if gb in reg}
+                    if len(owners) != 1:
+                        continue
+                    v0 = next(iter(owners))
+                    if v0 in ged:
+                        edges.append((gb, ged[v0]))
+                        blocks.append(gb)
                 for gb, tru, fal, gsi in body.call_bool_guards(r"core::cmp::PartialEq(<[^>]*>)?>::ne$|::ne$"):
                     edges.append((gb, fal)); blocks.append(gb)
                 for gb, tru, fal, gsi in body.call_bool_guards(r"core::cmp::PartialEq(<[^>]*>)?>::eq$|::eq$"):
